@@ -7,6 +7,7 @@
                        -> ACC B <main>:<items>;... R <t>=<res>,... I <keys> | REJECT <i>
    K <bits>            SetReferrersCapability sequence -> K <state>/<err>,...
    X <sg> <init> <changes> <ev> ...  exchanges of an end-to-end run on one tag -> ACC R .. I .. | REJECT <i>
+   T <d:m:z,...>       buildReferrersTag on subject descriptors (digest:mediatype:size, interned) -> T <class,...>
    D <kind> <art> <cfg>  indexReferrersForPush artifact type -> D <type>
    E <n>               end-to-end run (judged by the oracle)   -> E <n>
    descriptor = k:a:p, list = "-" | d,d,...   change = +d | ~d *)
@@ -168,6 +169,11 @@ let () =
       let rs = set_caps CapUnknown bs in
       Printf.printf "%s K %s\n" id
         (String.concat "," (List.map (fun (s, e) -> Printf.sprintf "%d/%d" (cap_num s) (if e then 1 else 0)) rs))
+    | [id; "T"; l] ->
+      let ds = List.map (fun x -> match String.split_on_char ':' x with
+          | [d; m; z] -> { s_mt = n_of_int (int_of_string m); s_digest = n_of_int (int_of_string d); s_size = n_of_int (int_of_string z) }
+          | _ -> failwith "subject") (String.split_on_char ',' l) in
+      Printf.printf "%s T %s\n" id (String.concat "," (List.map (fun i -> string_of_int (int_of_nat i)) (tag_classes ds)))
     | [id; "D"; k; a; c] ->
       let kind = (match k with "artifact" -> KArtifact | "index" -> KIndex | _ -> KImage) in
       Printf.printf "%s D %d\n" id (int_of_n (referrer_art kind (n_of_int (int_of_string a)) (n_of_int (int_of_string c))))
